@@ -9,20 +9,20 @@ import re, glob, os, collections
 V = '/verif/lean/Uniflow/Props'
 # property -> [(primary property, file key)]
 DEP = {
- 'C02': [('C01','packet_packet'),('C01','packet_reader'),('C01','packet_writer'),('C05','port_inport'),('C05','port_outport'),('C04','process_process')],
- 'C03': [('C01','packet_packet'),('C02','node_onetomany'),('C02','node_manytoone'),('C02','packet_readgroup'),('C04','process_exithook')],
- 'C05': [('C04','process_process'),('C04','process_exithook'),('C02','node_onetoone'),('C02','node_onetomany'),('C02','node_manytoone'),('C01','packet_packet')],
- 'C06': [('C07','symbol_loadhook'),('C07','symbol_unloadhook')],
- 'C07': [('C06','symbol_symbol'),('C05','port_inport'),('C05','port_outport')],
- 'C08': [('C06','symbol_symbol'),('C07','symbol_loadhook'),('C07','symbol_unloadhook'),('C07','hook_hook'),('C05','port_inport'),('C05','port_outport'),('C01','packet_packet'),('C01','packet_reader'),('C01','packet_writer')],
+ 'C02': [('C01','packet_packet'),('C01','packet_reader'),('C01','packet_writer'),('C05','port_inport'),('C05','port_outport'),('C04','process_process'),('C01','packet_hook'),('C05','port_openhook'),('C05','port_closehook'),('C05','port_listener')],
+ 'C03': [('C01','packet_packet'),('C02','node_onetomany'),('C02','node_manytoone'),('C02','packet_readgroup'),('C04','process_exithook'),('C01','packet_hook'),('C05','port_openhook'),('C05','port_closehook'),('C05','port_listener'),('C02','node_node'),('C02','node_port')],
+ 'C05': [('C04','process_process'),('C04','process_exithook'),('C02','node_onetoone'),('C02','node_onetomany'),('C02','node_manytoone'),('C01','packet_packet'),('C01','packet_hook'),('C02','node_node'),('C02','node_port')],
+ 'C06': [('C07','symbol_loadhook'),('C07','symbol_unloadhook'),('C05','port_closehook'),('C08','node_proxy'),('C08','symbol_cluster')],
+ 'C07': [('C06','symbol_symbol'),('C05','port_inport'),('C05','port_outport'),('C08','node_proxy'),('C08','symbol_cluster')],
+ 'C08': [('C06','symbol_symbol'),('C07','symbol_loadhook'),('C07','symbol_unloadhook'),('C07','hook_hook'),('C05','port_inport'),('C05','port_outport'),('C01','packet_packet'),('C01','packet_reader'),('C01','packet_writer'),('C05','port_listener'),('C05','port_openhook'),('C05','port_closehook'),('C01','packet_hook')],
  'C09': [('C10','store_store'),('C12','store_segment'),('C11','store_executionplan'),('C10','store_helper'),('C10','store_cursor'),('C06','symbol_table'),('C15','types_map'),('C18','template_template'),('C18','template_node')],
  'C10': [('C12','store_segment'),('C11','store_executionplan')],
  'C11': [('C10','store_helper'),('C10','store_cursor'),('C15','types_map')],
  'C12': [('C10','store_helper'),('C11','store_executionplan'),('C15','types_map')],
  'C13': [('C12','store_segment'),('C10','store_helper'),('C15','types_map')],
- 'C16': [('C15','types_map')],
+ 'C16': [('C15','types_map'),('C09','scheme_codec'),('C09','scheme_builder')],
  'C17': [('C15','types_map')],
- 'C19': [('C02','packet_tracer'),('C04','process_process'),('C06','symbol_symbol'),('C01','packet_packet')],
+ 'C19': [('C02','packet_tracer'),('C04','process_process'),('C06','symbol_symbol'),('C01','packet_packet'),('C01','packet_hook'),('C05','port_openhook'),('C05','port_closehook'),('C05','port_listener')],
 }
 have = collections.defaultdict(list)   # (P, key) -> [(module, theorem name)]
 for f in sorted(glob.glob(V + '/*Tie*.lean')):
